@@ -154,6 +154,8 @@ impl Model {
         }
         self.phase = Phase::Handlers;
         self.dropped_var_since_round = false;
+        self.dropped_handle_since_round_prev = self.dropped_handle_since_round;
+        self.dropped_handle_since_round = false;
         // ---- C09: expected notifications of this round
         for (sid, s) in self.subs.iter().enumerate() {
             if !s.live || s.eligible_from > round {
